@@ -389,7 +389,12 @@ class StmtMixin:
             self.oblige('loop_lemma', '%s.%s' % (tag, name), g, 'at the end of the body: ' + text, n)
             self.assume(g)
         for name, text in spec.invariants.items():
-            self.oblige('loop_inv_preserved', '%s.%s' % (tag, name), self.inv_clause(text, ctx), 'preserved: ' + text, n)
+            cases = None
+            if name in spec.split:
+                from .contracts import to_index
+                var, term = spec.split[name]
+                cases = [(var, to_index(self.eval_tv(term, ctx)))]
+            self.oblige('loop_inv_preserved', '%s.%s' % (tag, name), self.inv_clause(text, ctx), 'preserved: ' + text, n, cases=cases)
         if dec0 is not None:
             dec1 = self.eval_tv(spec.decreases, ctx)
             self.oblige('loop_variant', '%s.decreases' % tag, tv_cmp('<', dec1, dec0), 'variant decreases: ' + spec.decreases, n)
